@@ -405,14 +405,14 @@ def run_c08(res, tier, seed):
     q = []
     for t in toks:
         q += [f"goto\t{t.file}\t{t.start}", f"prepare\t{t.file}\t{t.start}"]
-        for c in CANDIDATES:
+        for c in CANDIDATES + [t.text]:        # ... and the name the token already has
             q.append(f"rename\t{t.file}\t{t.start}\t{hexs(c)}")
     out, rc = common.run_lines(common.HARNESS_BIN, pre + q)
     if len(out) != len(pre) + len(q):
         raise Broken("implementation harness died", "during the rename matrix")
     a = out[len(pre):]
     res.cov["evaluations"] += len(q)
-    step = 2 + len(CANDIDATES)
+    step = 2 + len(CANDIDATES) + 1
     local_files = {0, 1}
     seen_kinds = {}
     for k, t in enumerate(toks):
@@ -423,10 +423,11 @@ def run_c08(res, tier, seed):
         kind = symbol_kind(toks, goto)
         seen_kinds[kind] = seen_kinds.get(kind, 0) + 1
         any_ok = False
-        for j, c in enumerate(CANDIDATES):
+        for j, c in enumerate(CANDIDATES + [t.text]):
             r = a[k * step + 2 + j]
             ok = r.startswith("ok")
-            any_ok = any_ok or ok
+            own_name = j == len(CANDIDATES)       # not a fresh name: only "accepted although it must be refused" is judged
+            any_ok = any_ok or (ok and not own_name)
             if r.startswith("PANIC"):
                 continue
             cls = name_class(c)
@@ -449,7 +450,7 @@ def run_c08(res, tier, seed):
                     if e and e != "-" and int(e.split(":")[0]) not in local_files:
                         res.add_violation("C08/edits-dependency-file", f"rename of `{t.text}` edits a file of a dependency: {e}",
                                           {"files": [{"path": p, "text": x} for p, x in C08_FILES], "query": f"rename\t{t.file}\t{t.start}\t{hexs(c)}", "impl": r[:300]})
-            if should and not ok:
+            if should and not ok and not own_name:
                 res.add_violation(f"C08/refuses-valid/{kind}", f"rename of `{t.text}` ({kind}) to the valid name {c!r} is refused: {r}",
                                   {"files": [{"path": p, "text": x} for p, x in C08_FILES], "query": f"rename\t{t.file}\t{t.start}\t{hexs(c)}", "impl": r[:300]})
         if prep.startswith("ok") != any_ok and not prep.startswith("PANIC"):
